@@ -79,7 +79,11 @@ def conclude(job, spec, a, t0):
     canary_groups = {}
     for oname, r in job.canaries.items():
         canary_groups.setdefault((r["pid"], r["engine"]), []).append(r["status"])
-    for (pid, eng), sts in canary_groups.items():
+    for (pid, eng), sts in list(canary_groups.items()):
+        Pc = job.fam.programs.get(pid)
+        if Pc is not None and eng not in Pc.tags.get("canary_engines", [eng]):
+            del canary_groups[(pid, eng)]
+            continue
         if "failed" in sts:
             n_canary_fail += 1
         else:
